@@ -132,9 +132,9 @@ var relDirIDPool = []string{"sub/", "sub/x.json", "../y.json", "d/e/"}
 
 func (s *gstate) genSchema(at model.Pos, depth int, refPct int) map[string]any {
 	t := s.t
-	if depth > 0 && rapid.IntRange(0, 99).Draw(t, "isref") < refPct {
+	if depth > 0 && Pct(t, "isref", refPct) {
 		h := map[string]any{}
-		if rapid.IntRange(0, 5).Draw(t, "sibling") == 0 {
+		if Pct(t, "sibling", 15) {
 			h["description"] = "sibling-of-ref"
 		}
 		s.holes = append(s.holes, hole{h, at, model.KSchema, s.addTarget(at, model.KSchema, true)})
@@ -142,14 +142,14 @@ func (s *gstate) genSchema(at model.Pos, depth int, refPct int) map[string]any {
 	}
 	m := map[string]any{"title": s.newLabel("S")}
 	s.addTarget(at, model.KSchema, false)
-	if s.o.IDs && rapid.IntRange(0, 5).Draw(t, "hasid") == 0 {
+	if s.o.IDs && Pct(t, "hasid", 17) {
 		pool := idPool
 		if s.o.RelDirIDs {
 			pool = append(append([]string{}, idPool...), relDirIDPool...)
 		}
 		m["id"] = rapid.SampledFrom(pool).Draw(t, "id")
 	}
-	if s.o.Payloads && rapid.IntRange(0, 7).Draw(t, "payload") == 0 {
+	if s.o.Payloads && Pct(t, "payload", 12) {
 		switch rapid.IntRange(0, 2).Draw(t, "payloadkind") {
 		case 0:
 			m["example"] = map[string]any{"$ref": "#/definitions/not-a-reference"}
@@ -164,7 +164,7 @@ func (s *gstate) genSchema(at model.Pos, depth int, refPct int) map[string]any {
 	}
 	n := rapid.IntRange(0, 3).Draw(t, "nkw")
 	for i := 0; i < n; i++ {
-		kw := rapid.SampledFrom(schemaKWs).Draw(t, "kw")
+		kw := schemaKWs[Uniform(t, "kw", len(schemaKWs))]
 		realKw := kw
 		if kw == "itemsTuple" {
 			realKw = "items"
@@ -207,7 +207,7 @@ func (s *gstate) genSchema(at model.Pos, depth int, refPct int) map[string]any {
 
 func (s *gstate) genParam(at model.Pos, refPct int) map[string]any {
 	t := s.t
-	if rapid.IntRange(0, 99).Draw(t, "pisref") < refPct {
+	if Pct(t, "pisref", refPct) {
 		h := map[string]any{}
 		s.holes = append(s.holes, hole{h, at, model.KParam, s.addTarget(at, model.KParam, true)})
 		return h
@@ -221,7 +221,7 @@ func (s *gstate) genParam(at model.Pos, refPct int) map[string]any {
 
 func (s *gstate) genResponse(at model.Pos, refPct int) map[string]any {
 	t := s.t
-	if rapid.IntRange(0, 99).Draw(t, "risref") < refPct {
+	if Pct(t, "risref", refPct) {
 		h := map[string]any{}
 		s.holes = append(s.holes, hole{h, at, model.KResponse, s.addTarget(at, model.KResponse, true)})
 		return h
@@ -236,7 +236,7 @@ func (s *gstate) genResponse(at model.Pos, refPct int) map[string]any {
 
 func (s *gstate) genPathItem(at model.Pos, refPct int) map[string]any {
 	t := s.t
-	if rapid.IntRange(0, 99).Draw(t, "iisref") < refPct {
+	if Pct(t, "iisref", refPct) {
 		h := map[string]any{}
 		s.holes = append(s.holes, hole{h, at, model.KPathItem, s.addTarget(at, model.KPathItem, true)})
 		return h
@@ -251,7 +251,7 @@ func (s *gstate) genPathItem(at model.Pos, refPct int) map[string]any {
 		m["parameters"] = arr
 	}
 	for _, opn := range []string{"get", "post", "patch"} {
-		if rapid.IntRange(0, 2).Draw(t, "op") != 0 {
+		if !Pct(t, "op", 35) {
 			continue
 		}
 		op := map[string]any{"operationId": s.newLabel("O")}
@@ -264,7 +264,7 @@ func (s *gstate) genPathItem(at model.Pos, refPct int) map[string]any {
 		}
 		rs := map[string]any{}
 		for _, code := range []string{"default", "200", "404"} {
-			if rapid.IntRange(0, 2).Draw(t, "code") == 0 {
+			if Pct(t, "code", 35) {
 				rs[code] = s.genResponse(at.Child(opn, "responses", code), 50)
 			}
 		}
@@ -316,7 +316,7 @@ func relPath(from, to string) string {
 
 // Spell writes a `$ref` string that designates tp when it appears in document hdoc.
 func Spell(t *rapid.T, hdoc string, tp model.Pos, allowed Spelling) string {
-	frag := fragmentOf(tp.Ptr, rapid.IntRange(0, 9).Draw(t, "escmore") == 9)
+	frag := fragmentOf(tp.Ptr, Pct(t, "escmore", 8))
 	hu, _ := url.Parse(hdoc)
 	tu, _ := url.Parse(tp.Doc)
 	sameDoc := tp.Doc == hdoc
@@ -344,7 +344,7 @@ func Spell(t *rapid.T, hdoc string, tp model.Pos, allowed Spelling) string {
 	if len(styles) == 0 {
 		styles = []Spelling{SpellAbsolute}
 	}
-	switch rapid.SampledFrom(styles).Draw(t, "style") {
+	switch styles[Uniform(t, "style", len(styles))] {
 	case SpellFragment:
 		return frag
 	case SpellRelative:
@@ -401,7 +401,7 @@ func Graph(t *rapid.T, o GraphOpts) GraphCase {
 	for _, i := range order {
 		u := urls[i]
 		base := model.Pos{Doc: u}
-		if i > 0 && o.SchemaDocs && rapid.IntRange(0, 5).Draw(t, "schemadoc") == 0 {
+		if i > 0 && o.SchemaDocs && Pct(t, "schemadoc", 15) {
 			// a document whose root is a plain schema: target of whole-document refs
 			docs[u] = s.genSchema(base, 0, o.RefPct)
 			continue
@@ -468,7 +468,7 @@ func Graph(t *rapid.T, o GraphOpts) GraphCase {
 	if spell == 0 {
 		spell = SpellAll
 	}
-	dag := o.DagPct > 0 && rapid.IntRange(0, 99).Draw(t, "dag") < o.DagPct
+	dag := Pct(t, "dag", o.DagPct)
 	for _, h := range s.holes {
 		cands := byKind[h.k]
 		if o.OnlyFragAbs {
@@ -492,7 +492,7 @@ func Graph(t *rapid.T, o GraphOpts) GraphCase {
 				continue
 			}
 		}
-		if h.k != model.KSchema && rapid.IntRange(0, 99).Draw(t, "prefercontent") < 60 {
+		if h.k != model.KSchema && Pct(t, "prefercontent", 60) {
 			// keep most parameter/response/path-item chains well-founded
 			var content []target
 			for _, c := range cands {
@@ -513,10 +513,10 @@ func Graph(t *rapid.T, o GraphOpts) GraphCase {
 				}
 			}
 		}
-		if len(anc) > 0 && rapid.IntRange(0, 99).Draw(t, "cyc") < o.CycleBias {
+		if len(anc) > 0 && Pct(t, "cyc", o.CycleBias) {
 			tg = rapid.SampledFrom(anc).Draw(t, "ancestor")
 		} else {
-			tg = cands[rapid.IntRange(0, len(cands)-1).Draw(t, "target")]
+			tg = cands[Uniform(t, "target", len(cands))]
 		}
 		ref := Spell(t, h.at.Doc, tg.p, spell)
 		if ref == "" {
